@@ -33,6 +33,8 @@ struct Shared {
     written: Vec<u8>,
     write_chunk: usize,       // 0 = unlimited
     write_stall: bool,
+    /// accept this many more bytes, then stall (a transport under back-pressure takes part of a buffer and then blocks)
+    write_budget: Option<usize>,
     write_err: bool,
     shutdown_by_client: bool,
     dropped: bool,
@@ -110,9 +112,10 @@ impl AsyncWrite for ScriptedStream {
     fn poll_write(self: Pin<&mut Self>, cx: &mut Context<'_>, data: &[u8]) -> Poll<std::io::Result<usize>> {
         let mut s = self.0.lock().unwrap();
         if s.write_err { return Poll::Ready(Err(std::io::Error::from(std::io::ErrorKind::BrokenPipe))); }
-        if s.write_stall { s.write_waker = Some(cx.waker().clone()); return Poll::Pending; }
+        if s.write_stall || s.write_budget == Some(0) { s.write_waker = Some(cx.waker().clone()); return Poll::Pending; }
         let mut n = data.len();
         if s.write_chunk > 0 { n = n.min(s.write_chunk); }
+        if let Some(b) = s.write_budget { n = n.min(b); s.write_budget = Some(b - n); }
         s.written.extend_from_slice(&data[..n]);
         if s.fail_after_real_us.is_some() && !s.connect_seen {
             let framed = rc::frame(&s.written);
@@ -161,6 +164,9 @@ struct ClientCfg {
     /// "none" | "uniform" | "" (library default)
     #[serde(default)] jitter: String,
     #[serde(default)] connect_timeout_ms: Option<u64>,
+    /// extreme values the builders accept: "max" = Duration::MAX, "zero"
+    #[serde(default)] connect_timeout_tok: String,
+    #[serde(default)] ping_timeout_tok: String,
     #[serde(default)] ka: Option<u16>,
     #[serde(default)] policy: String,
     /// the automatic broker answers CONNECT / PUBLISH / SUBSCRIBE / ... on its own
@@ -191,9 +197,13 @@ enum Step {
     WriteStall { on: bool },
     WriteError {},
     WriteChunk { n: usize },
+    /// the transport accepts n more bytes and then blocks until WriteStall {on: false}
+    WriteBudget { n: usize },
     ReadChunk { n: usize },
     AutoBroker { on: bool },
-    Publish { #[serde(default)] qos: u8, #[serde(default)] size: usize },
+    Publish { #[serde(default)] qos: u8, #[serde(default)] size: usize,
+              /// ack timeout: "" none | "max" (Duration::MAX) | "zero" | milliseconds
+              #[serde(default)] ack: String },
     Subscribe {},
     Unsubscribe {},
     /// the broker sends n QoS 0 publishes (tagged payloads of `size` bytes) to the client
@@ -328,6 +338,8 @@ async fn run_script(script: &Script, run_no: u64, tr: Trace) -> Trace {
     if let Some(d) = tok(&cfg.max_tok) { cb.with_max_reconnect_period(d); }
     match cfg.jitter.as_str() { "none" => { cb.with_reconnect_period_jitter(ExponentialBackoffJitterType::None); } "uniform" => { cb.with_reconnect_period_jitter(ExponentialBackoffJitterType::Uniform); } _ => {} }
     if let Some(x) = cfg.connect_timeout_ms { cb.with_connect_timeout(Duration::from_millis(x)); }
+    match cfg.connect_timeout_tok.as_str() { "max" => { cb.with_connect_timeout(Duration::MAX); } "zero" => { cb.with_connect_timeout(Duration::ZERO); } _ => {} }
+    match cfg.ping_timeout_tok.as_str() { "max" => { cb.with_ping_timeout(Duration::MAX); } "zero" => { cb.with_ping_timeout(Duration::ZERO); } _ => {} }
     match cfg.policy.as_str() { "All" => { cb.with_offline_queue_policy(OfflineQueuePolicy::PreserveAll); } "None" => { cb.with_offline_queue_policy(OfflineQueuePolicy::PreserveNothing); } _ => {} }
     let mut co = ConnectOptions::builder();
     co.with_client_id("verif");
@@ -438,16 +450,19 @@ async fn run_script(script: &Script, run_no: u64, tr: Trace) -> Trace {
             }
             Step::PeerClose {} => { if let Some(c) = r.current() { let mut s = c.lock().unwrap(); s.eof = true; wake(&mut s); } r.emit("Net", vec![("what", json!("PeerClose"))]); }
             Step::ReadError {} => { if let Some(c) = r.current() { let mut s = c.lock().unwrap(); s.read_err = true; wake(&mut s); } r.emit("Net", vec![("what", json!("ReadError"))]); }
-            Step::WriteStall { on } => { if let Some(c) = r.current() { let mut s = c.lock().unwrap(); s.write_stall = *on; wake(&mut s); } r.emit("Net", vec![("what", json!(if *on { "WriteStall" } else { "WriteResume" }))]); }
+            Step::WriteStall { on } => { if let Some(c) = r.current() { let mut s = c.lock().unwrap(); s.write_stall = *on; if !*on { s.write_budget = None; } wake(&mut s); } r.emit("Net", vec![("what", json!(if *on { "WriteStall" } else { "WriteResume" }))]); }
             Step::WriteError {} => { if let Some(c) = r.current() { let mut s = c.lock().unwrap(); s.write_err = true; wake(&mut s); } r.emit("Net", vec![("what", json!("WriteError"))]); }
             Step::WriteChunk { n } => { if let Some(c) = r.current() { c.lock().unwrap().write_chunk = *n; } }
+            Step::WriteBudget { n } => { if let Some(c) = r.current() { c.lock().unwrap().write_budget = Some(*n); } }
             Step::ReadChunk { n } => { if let Some(c) = r.current() { c.lock().unwrap().read_chunk = *n; } }
             Step::AutoBroker { on } => { r.auto = *on; }
-            Step::Publish { qos, size } => {
+            Step::Publish { qos, size, ack } => {
                 let id = r.next_op; r.next_op += 1;
                 let payload = verif_harness::trace::payload_for(id, *size);
                 let q = match qos { 0 => QualityOfService::AtMostOnce, 1 => QualityOfService::AtLeastOnce, _ => QualityOfService::ExactlyOnce };
-                let fut = client.publish(PublishPacket::builder("t/verif".to_string(), q).with_payload(payload).build(), None);
+                let opts = match ack.as_str() { "" => None, "max" => Some(PublishOptions::builder().with_ack_timeout(Duration::MAX).build()), "zero" => Some(PublishOptions::builder().with_ack_timeout(Duration::ZERO).build()),
+                    ms => ms.parse::<u64>().ok().map(|x| PublishOptions::builder().with_ack_timeout(Duration::from_millis(x)).build()) };
+                let fut = client.publish(PublishPacket::builder("t/verif".to_string(), q).with_payload(payload).build(), opts);
                 r.emit("OpSubmit", vec![("op", json!(id)), ("kind", json!("pub")), ("qos", json!(qos)), ("afterClose", json!(closed as u8))]);
                 r.pending.push((id, Box::pin(async move { match fut.await { Ok(_) => Ok("ok".to_string()), Err(e) => Err(verif_harness::sim::err_kind(&e).to_string()) } })));
             }
@@ -496,7 +511,7 @@ async fn run_script(script: &Script, run_no: u64, tr: Trace) -> Trace {
     r.flush_client_events();
     // judge = 0 when the script left the transport unresponsive (a stalled write that was never released, a hanging connect)
     let stalled = r.current().map(|c| { let s = c.lock().unwrap(); s.write_stall && !s.dropped && !s.shutdown_by_client }).unwrap_or(false) || *r.plan.lock().unwrap() == "hang";
-    r.emit("End", vec![("loopAlive", json!(alive as u8)), ("closed", json!(closed as u8)), ("unresolved", json!(unresolved.len())), ("judge", json!(!stalled as u8)), ("expectAllRecv", json!((!closed && r.sent_in > 0) as u8))]);
+    r.emit("End", vec![("loopAlive", json!(alive as u8)), ("closed", json!(closed as u8)), ("unresolved", json!(unresolved.len())), ("judge", json!(!stalled as u8)), ("expectAllRecv", json!((!closed && r.sent_in > 0) as u8)), ("lossless", json!(1))]);
     let _ = &r.broker_pid_seen;
     r.tr
 }
